@@ -36,6 +36,9 @@ def run(ck, ctx):
     ck.rule("R01.8", "a conditional command refuses before it writes: no `0`/nil reply that is decided directly by a keyspace existence "
                      "test (contains_key / get_value / is_expired) is reachable from a visible write site of the same handler, loop back "
                      "edges included (MSETNX is all-or-nothing; SETNX/RENAMENX/EXPIRE-family refuse with the keyspace untouched)")
+    ck.rule("R01.9", "index windows are resolved alike: RedisList::range (LRANGE) and RedisList::trim (LTRIM) clamp start/stop with the same "
+                     "max/min operations on the same quantities (negative indices count from the tail, out-of-range indices are clamped, "
+                     "not rejected)")
     ck.nd("equality of every reply and of the keyspace with Redis for all argument values (needs a reference model + execution)")
     ck.nd("option-combination semantics, numeric results")
     for cfg in ctx.configs:
@@ -50,6 +53,7 @@ def run(ck, ctx):
         _r015(ck, prog, cfg, meths)
         _r016(ck, prog, cfg, meths)
         _r018(ck, prog, cfg, meths)
+        _r019(ck, prog, cfg)
         _r017(ck, prog, cfg)
 
 
@@ -601,3 +605,60 @@ def _r017(ck, prog, cfg):
                    "the seconds and milliseconds variants of the same command decide differently: skeletons diverge at offset %d: "
                    "`%s` vs `%s`" % (i, sa[max(0, i - 40):i + 60], sb[max(0, i - 40):i + 60]), fb.where())
     ck.floor("R01.7" + _tag(cfg), n, 4)
+
+
+def _clamp_sig(f):
+    """set of (min|max, operand descriptors) over the Ord::min/max calls of f, plus the comparisons of a parameter with a constant"""
+    def d(o, depth=0):
+        if "c" in o:
+            return o["c"].replace("const ", "").split("_")[0]
+        sx = src_of_operand(f, o, through_calls=TRANSPARENT)
+        if sx.kind == "path" and sx.local is not None and 1 <= sx.local <= f.d["argc"]:
+            return "self" + "".join("." + x for x in sx.fields) if sx.root == "self" else "p%d" % sx.local
+        if sx.kind == "call":
+            nm = callee(sx.term).rsplit("::", 1)[-1].split("<")[0]
+            if nm in ("len",):
+                return "len"
+            if nm in ("max", "min") and depth < 3:
+                return "%s(%s)" % (nm, ",".join(sorted(d(a, depth + 1) for a in sx.term["args"])))
+            return "call(%s)" % nm
+        if sx.kind == "rv" and depth < 4:
+            rv = sx.rv
+            if rv["k"] == "cast":
+                return d(rv["a"], depth + 1)
+            if rv["k"] == "bin":
+                a, b = d(rv["a"], depth + 1), d(rv["b"], depth + 1)
+                op = rv["op"].replace("WithOverflow", "")
+                return "%s(%s)" % (op, ",".join(sorted([a, b])) if op in ("Add", "Mul") else "%s,%s" % (a, b))
+            if rv["k"] == "use":
+                return d(rv["a"], depth + 1)
+        if sx.kind == "multi":
+            return "var"
+        return sx.kind
+    sig = set()
+    for b, t in f.calls():
+        if is_callee(t, r"<isize as std::cmp::Ord>::(max|min)$", r"std::cmp::(max|min)::<isize>$"):
+            nm = callee(t).rsplit("::", 1)[-1].split("<")[0]
+            sig.add((nm,) + tuple(sorted(d(a) for a in t["args"])))
+    for b, i, st in f.stmts():
+        rv = st["rv"]
+        if rv["k"] == "bin" and rv["op"] in ("Lt", "Le", "Gt", "Ge"):
+            a, b_ = d(rv["a"]), d(rv["b"])
+            if re.match(r"^p\d+$", a) and re.match(r"^-?\d+$", b_):
+                sig.add((rv["op"], a, b_))
+    return sig
+
+
+def _r019(ck, prog, cfg):
+    L = "redis::data::list::RedisList::"
+    fa = [f for f in prog.lib_fns() if f.id == L + "range"]
+    fb = [f for f in prog.lib_fns() if f.id == L + "trim"]
+    if len(fa) != 1 or len(fb) != 1:
+        ck.anchor_lost("R01.9", "RedisList::range / RedisList::trim not found")
+        return
+    sa, sb = _clamp_sig(fa[0]), _clamp_sig(fb[0])
+    ck.floor("R01.9" + _tag(cfg), min(len(sa), len(sb)), 4)
+    ck.check(sa == sb, "R01.9", "list:range~trim" + _tag(cfg),
+             "LRANGE and LTRIM resolve their index window differently: only range has %s; only trim has %s (an index below -len or beyond the "
+             "end is clamped by one command and rejected or mis-placed by the other)" % (sorted(sa - sb), sorted(sb - sa)), fb[0].where(),
+             detail="same clamps: %s" % sorted(sa))
